@@ -15,11 +15,12 @@ from .contracts import Contract, REGISTRY, parse_expr, resolve_function
 
 
 class Event(object):
-    def __init__(self, guard, qual, env, line):
+    def __init__(self, guard, qual, env, line, caller_locals=None):
         self.guard = guard
         self.qual = qual
         self.env = env
         self.line = line
+        self.caller_locals = caller_locals or {}
 
 
 class Executor(Engine, ExprMixin, StmtMixin, CallMixin):
@@ -34,6 +35,7 @@ class Executor(Engine, ExprMixin, StmtMixin, CallMixin):
         self.call_log = []
         self.folds = {}
         self.events_locals = {}
+        self.caller_vars_snapshot = None
 
     # ------------------------------------------------------------------ spec evaluation
     def spec_frame(self, c, old_state):
@@ -75,6 +77,7 @@ class Executor(Engine, ExprMixin, StmtMixin, CallMixin):
                 continue
             env = dict(self.top_env)
             env.update(self.events_locals)
+            env.update({'local_' + k: v for k, v in ev.caller_locals.items() if v is not UNBOUND})
             env.update({'arg_' + k: v for k, v in ev.env.items()})
             s2 = State(dict(env), dict(st.heap), st.guard)
             fr = self.spec_frame(c, self.top_pre)
@@ -146,6 +149,7 @@ class Executor(Engine, ExprMixin, StmtMixin, CallMixin):
                 st.heap['$DMAP'] = z3.Store(self.harr(st, '$DMAP'), r, fresh('hv_dmap', DMapInner))
             else:
                 st.heap['$ELEM'] = z3.Store(self.harr(st, '$ELEM'), r, fresh('hv_elem', z3.ArraySort(IntS, Val)))
+                st.heap['$OFF'] = z3.Store(self.harr(st, '$OFF'), r, z3.IntVal(0))
             nl = fresh('hv_len', IntS)
             self.assume(st, nl >= 0)
             st.heap['$LEN'] = z3.Store(self.harr(st, '$LEN'), r, nl)
@@ -192,6 +196,7 @@ class Executor(Engine, ExprMixin, StmtMixin, CallMixin):
 
     def apply_contract(self, st, c, f, args, kwargs, line):
         self.used_contracts.add(c.qual)
+        self.caller_vars_snapshot = dict(st.vars)      # the caller's locals at the call (for call-discipline clauses)
         env = self.callee_env(st, c, f, args, kwargs)
         if getattr(self.frame(), 'spec_mode', False) or any(getattr(fr, 'spec_mode', False) for fr in self.frames):
             # inside a specification: only pure (uninterpreted) callees make sense; no effects, no exceptions
@@ -243,7 +248,8 @@ class Executor(Engine, ExprMixin, StmtMixin, CallMixin):
             self.oblige(st, 'pre:%s:%d@%d' % (c.qual.split('.')[-1], i, line), And(wd, truth),
                         'precondition of %s: %s' % (c.qual, r))
         if True:
-            self.events.append(Event(st.guard, c.qual, dict(env), line))
+            self.events.append(Event(st.guard, c.qual, dict(env), line,
+                                     {k: v for k, v in (self.caller_vars_snapshot or {}).items()}))
         havocs = self.havoc(st, c, env, c.modifies)
         call_rec = {'qual': c.qual, 'line': line, 'guard': st.guard, 'havocs': havocs, 'result': None, 'raises': []}
         if c.trusted:
@@ -514,16 +520,27 @@ class Executor(Engine, ExprMixin, StmtMixin, CallMixin):
         self.ghost_init(st, spec)
         self.fold_axioms(st, spec, None, False)
         self.check_inv(st, spec, name, 'init', None)
-        head_heap_elem = z3.Select(self.harr(st, '$ELEM'), r)
-        self.havoc_loop(st, spec, s.body + [pyast.Assign(targets=[s.target], value=pyast.Constant(value=None))])
+        body_stmts = s.body + [pyast.Assign(targets=[s.target], value=pyast.Constant(value=None))]
+        # the state after the loop: an arbitrary state satisfying the invariant with the index at the end.
+        # It is havocked separately from the body state below (independent constants), so that facts recorded
+        # inside the body (call events, exits) stay compatible with the path that continues after the loop.
+        after = st.copy()
+        self.havoc_loop(after, spec, body_stmts)
+        iv_e = fresh('Iend', IntS)
+        after.vars[ivar] = V(mkI(iv_e), parse_spec('int'))
+        n_e = self.list_len(after, r)
+        self.assume(after, And(iv_e >= 0, iv_e <= n_e))
+        self.assume_inv(after, spec)
+        after.guard = And(after.guard, iv_e >= n_e)
+        # the body: an arbitrary iteration
+        self.havoc_loop(st, spec, body_stmts)
         iv = fresh('I', IntS)
         st.vars[ivar] = V(mkI(iv), parse_spec('int'))
         n = self.list_len(st, r)
         self.assume(st, And(iv >= 0, iv <= n))
         self.assume_inv(st, spec)
-        # exit path
-        after = st.copy()
-        after.guard = And(st.guard, iv >= n)
+        head_elem = z3.Select(self.harr(st, '$ELEM'), r)
+        head_off = self.list_off(st, r)
         # body path
         st.guard = And(st.guard, iv < n)
         elem_t = self.list_elem(st, r, iv)
@@ -571,12 +588,12 @@ class Executor(Engine, ExprMixin, StmtMixin, CallMixin):
             st.vars[ivar] = V(mkI(iv + 1), parse_spec('int'))
             # the iterated list itself must not change
             self.oblige(st, name + '.iter_unchanged', And(self.list_len(st, r) == n,
-                        z3.Select(self.harr(st, '$ELEM'), r) == z3.Select(self.harr(after, '$ELEM'), r)),
+                        z3.Select(self.harr(st, '$ELEM'), r) == head_elem, self.list_off(st, r) == head_off),
                         'the list being iterated is not modified by the loop body')
             self.check_inv(st, spec, name, 'preserve', None)
         # continue after the loop
         st.vars, st.heap, st.guard = after.vars, after.heap, after.guard
-        st.vars[ivar] = V(mkI(n), parse_spec('int'))
+        st.vars[ivar] = V(mkI(n_e), parse_spec('int'))
         if s.orelse:
             self.exec_block(st, s.orelse)
         if 'ghost_exit' in spec and not breaks:
@@ -603,13 +620,20 @@ class Executor(Engine, ExprMixin, StmtMixin, CallMixin):
         self.ghost_init(st, spec)
         self.fold_axioms(st, spec, None, False)
         self.check_inv(st, spec, name, 'init', None)
+        # state after the loop (separately havocked, see loop_for_invariant)
+        after = st.copy()
+        self.havoc_loop(after, spec, s.body)
+        self.assume_inv(after, spec)
+        if spec.get('folds') and spec.get('index') in after.vars:
+            self.fold_axioms(after, spec, Val.i(after.vars[spec['index']].t), True)
+        c_e = self.truthy(after, self.eval(after, s.test))
+        after.guard = And(after.guard, Not(c_e))
+        # an arbitrary iteration
         self.havoc_loop(st, spec, s.body)
         self.assume_inv(st, spec)
         if spec.get('folds') and spec.get('index') in st.vars:
             self.fold_axioms(st, spec, Val.i(st.vars[spec['index']].t), True)
         c = self.truthy(st, self.eval(st, s.test))
-        after = st.copy()
-        after.guard = And(st.guard, Not(c))
         st.guard = And(st.guard, c)
         loop_id = object()
         fr.loop_stack.append(loop_id)
@@ -769,7 +793,7 @@ class Executor(Engine, ExprMixin, StmtMixin, CallMixin):
                 whole.add(m[2:])
             elif m.endswith('{}') or m.endswith('[]'):
                 base = self.eval_in(pre, c, env, m[:-2])
-                for k in ('$LEN', '$DMAP' if m.endswith('{}') else '$ELEM'):
+                for k in (('$LEN', '$DMAP') if m.endswith('{}') else ('$LEN', '$ELEM', '$OFF')):
                     allowed.setdefault(k, []).append(base)
             else:
                 be, f = m.rsplit('.', 1)
@@ -781,7 +805,7 @@ class Executor(Engine, ExprMixin, StmtMixin, CallMixin):
                 init = self.init_arr(f)
             if arr is init or arr.eq(init) or f in whole:
                 continue
-            if f.startswith('$') and f not in ('$LEN', '$ELEM', '$DMAP'):
+            if f.startswith('$') and f not in ('$LEN', '$ELEM', '$DMAP', '$OFF'):
                 self.oblige(st, 'frame.%s' % f, arr == init, 'ghost %s is not in modifies' % f)
                 continue
             rsk = fresh('frame_r', IntS)
